@@ -429,6 +429,26 @@ def error_cases() -> list[dict[str, Any]]:
                 cur = targets[cur]
             srcs = {f"t{k}": "{% extends 't" + str(targets[k]) + "' %}{% block x %}" + str(k) + "{% endblock %}" for k in range(n)}
             cases.append({"name": f"cycle-{n}-{''.join(map(str, targets))}", "sources": srcs, "want": "inheritance"})
+    # ---- configurations that must RENDER, with the page the functional model gives (written out here)
+    # (a) template names with directories, the same file name at several levels of one acyclic chain
+    D = ["site/page.html", "theme/page.html", "theme/base.html", "core/base.html"]
+    for depth in (2, 3, 4):
+        srcs = {D[k]: ("{% extends '" + D[k + 1] + "' %}" if k < depth - 1 else "<") + "{% block x %}" + str(k) + ("{{ block.super }}" if k < depth - 1 else "") + "{% endblock %}" + ("" if k < depth - 1 else ">") for k in range(depth)}
+        cases.append({"name": f"same-file-name-in-chain-depth{depth}", "sources": {**srcs, "t0": "{% extends '" + D[0] + "' %}"}, "want": "page", "page": "<" + "".join(str(k) for k in range(depth)) + ">"})
+    cases.append({"name": "same-file-name-root-without-extends", "sources": {"t0": "{% extends 'pages/base' %}", "pages/base": "{% extends 'base' %}{% block x %}p{{ block.super }}{% endblock %}", "base": "[{% block x %}b{% endblock %}]"}, "want": "page", "page": "[pb]"})
+    # (b) a partial with blocks of its own, rendered (isolated scope) from inside a chain that uses the same block names
+    CARD = "({% block x %}cardx{% endblock %}{% block y %}cardy{% endblock %})"
+    for where, t1, page in (
+        ("root-text", "[{% block x %}bx{% endblock %}]{% render 'card' %}", "[PX](cardxcardy)"),
+        ("root-block", "[{% block x %}bx{% endblock %}{% block y %}{% render 'card' %}{% endblock %}]", "[PX(cardxcardy)]"),
+        ("in-loop", "[{% block x %}bx{% endblock %}]{% for i in (1..2) %}{% render 'card' %}{% endfor %}", "[PX](cardxcardy)(cardxcardy)"),
+    ):
+        cases.append({"name": f"rendered-partial-with-blocks:{where}", "sources": {"t0": "{% extends 't1' %}{% block x %}PX{% endblock %}", "t1": t1, "card": CARD}, "want": "page", "page": page})
+    cases.append({"name": "rendered-partial-with-blocks:in-override", "sources": {"t0": "{% extends 't1' %}{% block x %}PX{% render 'card' %}{% endblock %}{% block y %}PY{% endblock %}", "t1": "[{% block x %}bx{% endblock %}{% block y %}by{% endblock %}]", "card": CARD}, "want": "page", "page": "[PX(cardxcardy)PY]"})
+    # (c) text of a child template that is outside every block is discarded, wherever it stands
+    cases.append({"name": "child-text-after-extends", "sources": {"t0": "{% extends 't1' %} after {% block x %}leaf{% endblock %} tail", "t1": "[{% block x %}b{% endblock %}]"}, "want": "page", "page": "[leaf]"})
+    cases.append({"name": "child-text-before-extends", "sources": {"t0": "before {% extends 't1' %}{% block x %}leaf{% endblock %}", "t1": "[{% block x %}b{% endblock %}]"}, "want": "page", "page": "[leaf]"})
+    cases.append({"name": "rendered-chain-inside-chain", "sources": {"t0": "{% extends 't1' %}{% block x %}PX{% render 'c0' %}{% endblock %}", "t1": "[{% block x %}bx{% endblock %}{% block y %}by{% endblock %}]", "c0": "{% extends 'card' %}{% block y %}Y!{% endblock %}", "card": CARD}, "want": "page", "page": "[PX(cardxY!)by]"})
     return cases
 
 
@@ -441,7 +461,12 @@ def check_error_case(case: dict[str, Any], res: ShardResult | None) -> list[tupl
             res.traces_validated += 1
             res.outcomes.add(h64([got[0], entry]))
         want = case["want"]
-        if want == "required":
+        if want == "page":
+            if entry in HOSTS:
+                ok = got == ("ok", host_expectation(entry, case["page"], case["page"]))
+            else:
+                ok = got == ("ok", case["page"])
+        elif want == "required":
             ok = got[0] == "required"
         elif want == "inheritance":
             ok = got[0] in ("inheritance-error", "required")
@@ -449,7 +474,9 @@ def check_error_case(case: dict[str, Any], res: ShardResult | None) -> list[tupl
             ok = got == ("liquid", "TemplateNotFoundError")
         if not ok:
             cls = case["name"].split("-depth")[0] if "depth" in case["name"] else (case["name"] if not case["name"].startswith("cycle-") else "cycle")
-            out.append((f"C08:error-config-not-rejected:{cls}:{got[0]}", {"error_case": case["name"], "sources": case["sources"], "entry": entry}, want, got))
+            label = "config-wrong-page" if want == "page" else "error-config-not-rejected"
+            cls = cls.split(":")[0]
+            out.append((f"C08:{label}:{cls}:{got[0]}", {"error_case": case["name"], "sources": case["sources"], "entry": entry}, case.get("page", want), got))
     if res is not None:
         res.nontrivial.add(h64(case["name"]))
     return out
